@@ -3,7 +3,7 @@
 Require Import List Arith Bool Lia.
 Require Import Raft.Quorum Raft.QuorumProofs Raft.RaftModel Raft.RaftSys Raft.RaftLog Raft.RaftInv
                Raft.RaftInvBase Raft.RaftInvMain Raft.RaftRefine Raft.RaftSafety Raft.RaftStepProps Raft.RaftSafetySteps Raft.RaftCheck
-               Raft.RaftCC Raft.RaftCCCheck Raft.RaftCCRefine Raft.RaftCCSafety Raft.RaftCCQuorum Raft.RaftCCInv
+               Raft.RaftCC Raft.RaftCCCheck Raft.RaftCCRefine Raft.RaftCCSafety Raft.RaftCCQuorum Raft.RaftCCInv Raft.RaftCCOne
                Raft.RaftPV Raft.RaftPVCheck Raft.RaftPVRefine.
 Import ListNotations.
 
@@ -426,6 +426,23 @@ Proof.
   exact (propose_conf_fresh id c p _ _ (cc_pending_discipline boot page1 x H id) Hl Hp Hlog).
 Qed.
 Print Assumptions C15_cc_conf_proposal_fresh.
+
+(* ingredient (a) in full, inside the envelope: in every state reachable with configurations from a
+   family with pairwise intersecting quorums, NO log holds two uncommitted configuration changes
+   (of two configuration-change entries of a node's log the earlier one is below its commit index).
+   The envelope is needed because a follower's half rests on log matching, which is part of the
+   invariant proved for intersecting quorums; the statement for ALL cxreachable states is exactly
+   as hard as the chain argument itself (log matching needs election safety, election safety needs
+   quorum intersection along the chain, and that needs this statement): they have to be proved
+   together.  The messages' half (RaftCCOne.C2) is enforced on emission by RaftCC.emit_cc_okb,
+   which the trace validator checks on every MsgApp of the implementation. *)
+Theorem C15_cc_at_most_one_uncommitted_conf_change_partial : forall F boot page1, inter_family F ->
+  forall x, cxreachableF F boot page1 x ->
+  forall y j j' e e', j < j' ->
+    nth_error (n_log (fst (cx_nodes x y))) j = Some e -> nth_error (n_log (fst (cx_nodes x y))) j' = Some e' ->
+    isconf (snd e) = true -> isconf (snd e') = true -> S j <= n_commit (fst (cx_nodes x y)).
+Proof. intros F boot page1 HF x Hx. exact (cc_at_most_one_uncommitted F HF boot page1 x Hx). Qed.
+Print Assumptions C15_cc_at_most_one_uncommitted_conf_change_partial.
 
 (* non-vacuity of the membership-change model: in a 3-voter cluster node 1 is elected, proposes
    "add voter 4" (payload 104), replicates it to node 2, commits it and from then on decides with
